@@ -43,3 +43,15 @@ func (b *Board) VerifFullMoves() int { return b.fullMoves }
 
 // VerifHistory is the hash history (not a copy).
 func (b *Board) VerifHistory() []Hash { return b.hashes }
+
+// VerifLoadFEN is FromFEN into an existing board: ParseFEN followed by
+// ResetHash, re-using b's hash history storage instead of allocating.
+func VerifLoadFEN(b *Board, fen []byte) error {
+	h := b.hashes
+	if err := ParseFEN(b, fen); err != nil {
+		return err
+	}
+	b.hashes = h
+	b.ResetHash()
+	return nil
+}
